@@ -12,6 +12,16 @@ from .model import AnalysisError, FuncInfo, norm
 VERIF = os.path.dirname(os.path.dirname(os.path.abspath(__file__)))
 
 
+def outroot():
+    """evidence / replay files belong to /repo itself; runs against a scratch copy (--repo) write elsewhere"""
+    repo = os.path.realpath(os.environ.get("VERIF_REPO", "/repo"))
+    if repo == "/repo" and not os.environ.get("VERIF_OUT"):
+        return VERIF
+    d = os.environ.get("VERIF_OUT") or os.path.join("/tmp", "verif_scratch_out", repo.strip("/").replace("/", "_"))
+    os.makedirs(d, exist_ok=True)
+    return d
+
+
 @dataclass
 class Finding:
     rule: str
@@ -139,7 +149,7 @@ def finish(rep: Report, tier: str, seed: int, t0: float, replay_only=None) -> in
             knownhit.append((f, k))
         else:
             new.append(f)
-    outdir = os.path.join(VERIF, "out", "replay")
+    outdir = os.path.join(outroot(), "out", "replay")
     os.makedirs(outdir, exist_ok=True)
     seen = set()
     for f, k in knownhit:
@@ -208,6 +218,6 @@ def write_evidence(rep: Report, tier, seed, wall, nviol, nknown):
         "wall_s": round(wall, 3),
         "violations": nviol,
     }
-    os.makedirs(os.path.join(VERIF, "evidence"), exist_ok=True)
-    with open(os.path.join(VERIF, "evidence", f"{rep.property_id}.json"), "w") as fh:
+    os.makedirs(os.path.join(outroot(), "evidence"), exist_ok=True)
+    with open(os.path.join(outroot(), "evidence", f"{rep.property_id}.json"), "w") as fh:
         json.dump(ev, fh, indent=1, default=str)
